@@ -316,6 +316,19 @@ fn gen_op(rng: &mut Rng, w: &World) -> Option<Op> {
                             rng.pick(&ex).0.clone()
                         }
                     }
+                    // an alias of an instance export is an instance itself: alias one of ITS exports
+                    // (an alias of an alias), named after what the real type offers
+                    MKind::Alias { .. } if w.m.nodes[&n].is_instance && rng.chance(3, 4) => match w.g[n].item_kind() {
+                        ItemKind::Instance(id) => {
+                            let names: Vec<String> = w.g.types()[id].exports.keys().cloned().collect();
+                            if names.is_empty() {
+                                "nope".to_string()
+                            } else {
+                                rng.pick(&names).clone()
+                            }
+                        }
+                        _ => "nope".to_string(),
+                    },
                     _ => rng.pick(&["nope", "foo", "ns:lib/i0"]).to_string(),
                 };
                 return Some(Op::Alias(n, export));
@@ -489,6 +502,12 @@ fn step(w: &mut World, op: &Op, export_names: &mut BTreeSet<String>) -> Result<S
             // which exports does the model know for this node?
             let known: Option<Vec<(String, String, bool)>> = match &mn.kind {
                 MKind::Inst { pkg } => Some(w.comp_exports(w.m.pkgs[*pkg].0)),
+                // the exports of an aliased instance are read from its (decoded) type: C08 is the
+                // property about that type being right
+                MKind::Alias { .. } if mn.is_instance => match w.g[node].item_kind() {
+                    ItemKind::Instance(id) => Some(w.g.types()[id].exports.iter().map(|(n, k)| (n.clone(), format!("nested:{}:{n}", mn.key), matches!(k, ItemKind::Instance(_)))).collect()),
+                    _ => None,
+                },
                 _ => None,
             };
             let r = catch(|| w.g.alias_instance_export(node, &export))?;
@@ -648,6 +667,26 @@ fn encode_probe(ctx: &mut Ctx, case: u64, w: &World, input: &Value) {
                     );
                 } else {
                     ctx.violation(case, &format!("C06:encode-invalid-after-history:{}", normalize_msg(&msg)), format!("the graph encodes to an invalid component after an accepted history: {msg}"), input.clone());
+                }
+            } else {
+                // "the graph still encodes" to the composition that is left: the wiring, the exports
+                // and the name section of the output are compared with the surviving graph (C02's
+                // translation check), which matters after removals have left holes in the node table
+                let exported: Vec<(String, NodeId)> = w
+                    .m
+                    .nodes
+                    .iter()
+                    .filter(|(_, n)| !matches!(n.kind, MKind::Def { .. }))
+                    .flat_map(|(id, n)| n.exports.iter().map(move |e| (e.clone(), *id)))
+                    .collect();
+                let diffs = crate::props::c02::compare(&crate::props::c02::Expect { graph: &w.g, exported: &exported }, &bytes, true);
+                ctx.count("encode-probe:wiring-compared");
+                for (kind, detail) in diffs {
+                    if kind == "wiring-differs-only-by-merged-import-names" {
+                        ctx.count("encode-probe:known-C02-zone");
+                        continue;
+                    }
+                    ctx.violation(case, &format!("C06:encoded-composition-differs-after-history:{kind}"), detail, input.clone());
                 }
             }
         }
